@@ -999,22 +999,29 @@ func (c *ctx) scen(s scenario, class string) {
 
 // scenarios: the hand-written list, then random variations (a peer step duplicated, dropped,
 // swapped with its neighbour, or its stanza mutated).
-func (c *ctx) scenarios() {
+// scenarios runs the hand-written list and its random variations (child group scen) or the
+// pending-request matrix (child group pending; a group of its own so that the two run side by
+// side).
+func (c *ctx) scenarios(pendingOnly bool) {
 	list := scenarioList()
 	matrix := pendingMatrix()
-	for _, s := range list {
-		if only := os.Getenv("C09_SCEN"); only != "" && only != s.name {
-			continue
+	if !pendingOnly {
+		for _, s := range list {
+			if only := os.Getenv("C09_SCEN"); only != "" && only != s.name {
+				continue
+			}
+			c.scen(s, "scenario")
 		}
-		c.scen(s, "scenario")
 	}
-	for _, s := range matrix {
-		if only := os.Getenv("C09_SCEN"); only != "" && only != s.name {
-			continue
+	if pendingOnly || os.Getenv("C09_SCEN") != "" {
+		for _, s := range matrix {
+			if only := os.Getenv("C09_SCEN"); only != "" && only != s.name {
+				continue
+			}
+			c.scen(s, "scenario-pending")
 		}
-		c.scen(s, "scenario-pending")
 	}
-	if os.Getenv("C09_SCEN") != "" {
+	if pendingOnly || os.Getenv("C09_SCEN") != "" {
 		return
 	}
 	rnd := c.r.Rnd
